@@ -6,6 +6,16 @@
 // Key universe {1..K}; lookups additionally use 0 and K+1 (absent, before/after everything).
 // Also reports C03 (lifetime registry, Tracked keys), C05 (handler on a valid call) and C02
 // (sanitizer/crash) through the explorer.
+//
+// Round 2 widened the configurations (parts 15-22 of the job table):
+//  * comparators whose equivalence classes are larger than identity (keys ordered by key/2), plain
+//    and transparent, and a comparator whose direction is run-time state (flat_set only);
+//  * Tracked move-only / copy-only keys; flat_set over an unbounded, always-reallocating heap
+//    vector (HeapVec); flat_multiset over the same, with equivalence comparators and all key kinds;
+//  * capacities 6-8 with universe capacity+2, fill/clear/refill histories keyed on raw bytes;
+//  * a heterogeneous key type that converts to ANOTHER key than it compares as; dereference of
+//    the iterators returned by insert/erase/find;
+//  * relational operators and observers over stale storage for all ordered pairs of subsets.
 #include "explore.hpp"
 #include "tracked.hpp"
 
@@ -16,7 +26,9 @@
 #include <etl/utility.hpp>
 #include <etl/vector.hpp>
 
+#include <algorithm>
 #include <iterator>
+#include <memory>
 #include <set>
 #include <type_traits>
 #include <vector>
@@ -29,45 +41,134 @@ using mc::value_of;
 namespace {
 
 using TCM = mc::Tracked<mc::copy_move>;
+using TMO = mc::Tracked<mc::move_only>;
+using TCO = mc::Tracked<mc::copy_only>;
 
 template <typename T>
 std::string tname()
 {
     if constexpr (std::is_same_v<T, int>) {
         return "int";
+    } else if constexpr (std::is_same_v<T, TMO>) {
+        return "Tracked<move-only>";
+    } else if constexpr (std::is_same_v<T, TCO>) {
+        return "Tracked<copy-only>";
     } else {
         return "Tracked<copy+move>";
     }
 }
 
 // ---------------------------------------------------------------------------------------
-// comparators: tetl side (template argument) -> model side, name, direction
+// comparators: tetl side (template argument) -> model side (a comparator over int), name
 // ---------------------------------------------------------------------------------------
-template <typename Cmp>
-struct CmpInfo;
-template <typename U>
-struct CmpInfo<etl::less<U>> {
-    static constexpr bool desc = false;
-    static std::string name() { return std::is_void_v<U> ? "less<>" : "less"; }
-};
-template <typename U>
-struct CmpInfo<etl::greater<U>> {
-    static constexpr bool desc = true;
-    static std::string name() { return std::is_void_v<U> ? "greater<>" : "greater"; }
-};
-
 // wrapper key for heterogeneous lookup through a transparent comparator
 struct WKey {
     int v;
+};
+// heterogeneous key that is also implicitly convertible to int, but to ANOTHER value (v + 3): an
+// implementation that converts the argument to key_type instead of handing it to the transparent
+// comparator looks up the wrong key
+struct CKey {
+    int v;
+    operator int() const { return v + 3; } // NOLINT
 };
 inline bool operator<(WKey a, int b) { return a.v < b; }
 inline bool operator<(int a, WKey b) { return a < b.v; }
 inline bool operator>(WKey a, int b) { return a.v > b; }
 inline bool operator>(int a, WKey b) { return a > b.v; }
-inline bool operator<(WKey a, TCM const& b) { return a.v < b.value(); }
-inline bool operator<(TCM const& a, WKey b) { return a.value() < b.v; }
-inline bool operator>(WKey a, TCM const& b) { return a.v > b.value(); }
-inline bool operator>(TCM const& a, WKey b) { return a.value() > b.v; }
+inline bool operator<(CKey a, int b) { return a.v < b; }
+inline bool operator<(int a, CKey b) { return a < b.v; }
+inline bool operator>(CKey a, int b) { return a.v > b; }
+inline bool operator>(int a, CKey b) { return a > b.v; }
+template <int F, int G>
+bool operator<(WKey a, mc::Tracked<F, G> const& b) { return a.v < b.value(); }
+template <int F, int G>
+bool operator<(mc::Tracked<F, G> const& a, WKey b) { return a.value() < b.v; }
+template <int F, int G>
+bool operator>(WKey a, mc::Tracked<F, G> const& b) { return a.v > b.value(); }
+template <int F, int G>
+bool operator>(mc::Tracked<F, G> const& a, WKey b) { return a.value() > b.v; }
+
+// logical value of anything a comparator of this file may be handed
+inline int hv(int x) { return x; }
+inline int hv(long x) { return int(x); }
+inline int hv(WKey k) { return k.v; }
+inline int hv(CKey k) { return k.v; }
+template <int F, int G>
+int hv(mc::Tracked<F, G> const& t) { return t.value(); }
+
+// comparators that induce equivalence classes larger than identity: keys are ordered by key/2, so
+// {0,1}, {2,3}, {4,5}, ... are pairwise equivalent but not equal
+struct HalfLess {
+    template <typename A>
+    bool operator()(A const& a, A const& b) const { return hv(a) / 2 < hv(b) / 2; }
+};
+struct HalfGreater {
+    template <typename A>
+    bool operator()(A const& a, A const& b) const { return hv(a) / 2 > hv(b) / 2; }
+};
+struct HalfLessT {
+    using is_transparent = void;
+    template <typename A, typename B>
+    bool operator()(A const& a, B const& b) const { return hv(a) / 2 < hv(b) / 2; }
+};
+// stateful comparator: the direction is decided at run time by the object handed to a constructor
+struct DirCmp {
+    bool desc{false};
+    template <typename A>
+    bool operator()(A const& a, A const& b) const { return desc ? hv(b) < hv(a) : hv(a) < hv(b); }
+};
+
+template <typename Cmp>
+struct CmpInfo;
+template <typename U>
+struct CmpInfo<etl::less<U>> {
+    using model                    = std::less<int>;
+    static constexpr bool stateful = false;
+    static constexpr bool classes  = false; // equivalence == identity
+    static model to_model(etl::less<U> const&) { return {}; }
+    static std::string name() { return std::is_void_v<U> ? "less<>" : "less"; }
+};
+template <typename U>
+struct CmpInfo<etl::greater<U>> {
+    using model                    = std::greater<int>;
+    static constexpr bool stateful = false;
+    static constexpr bool classes  = false;
+    static model to_model(etl::greater<U> const&) { return {}; }
+    static std::string name() { return std::is_void_v<U> ? "greater<>" : "greater"; }
+};
+template <>
+struct CmpInfo<HalfLess> {
+    using model                    = HalfLess;
+    static constexpr bool stateful = false;
+    static constexpr bool classes  = true;
+    static model to_model(HalfLess const&) { return {}; }
+    static std::string name() { return "less-by-key/2"; }
+};
+template <>
+struct CmpInfo<HalfGreater> {
+    using model                    = HalfGreater;
+    static constexpr bool stateful = false;
+    static constexpr bool classes  = true;
+    static model to_model(HalfGreater const&) { return {}; }
+    static std::string name() { return "greater-by-key/2"; }
+};
+template <>
+struct CmpInfo<HalfLessT> {
+    using model                    = HalfLess;
+    static constexpr bool stateful = false;
+    static constexpr bool classes  = true;
+    static model to_model(HalfLessT const&) { return {}; }
+    static std::string name() { return "transparent-less-by-key/2"; }
+};
+template <>
+struct CmpInfo<DirCmp> {
+    using model                    = DirCmp;
+    static constexpr bool stateful = true;
+    static constexpr bool classes  = false;
+    static model to_model(DirCmp const& c) { return c; }
+    static std::string name() { return "run-time-direction"; }
+};
 
 // ---------------------------------------------------------------------------------------
 // pools of external arguments (deterministic order, simplest first)
@@ -103,39 +204,45 @@ inline int popcount(unsigned m)
 }
 inline bool in_mask(unsigned mask, int key) { return key >= 1 && key <= 30 && ((mask >> (key - 1)) & 1U) != 0; }
 
-// keys of `mask` in comparator order
-inline std::vector<int> mask_keys(unsigned mask, int K, bool desc)
+// keys of `mask` in the order of the (model) comparator; with a comparator that has equivalence
+// classes the result is only "sorted unique" when no two keys of the mask are equivalent
+template <typename MC>
+std::vector<int> mask_keys(unsigned mask, int K, MC const& mc)
 {
     std::vector<int> o;
-    if (desc) {
-        for (int k = K; k >= 1; --k) {
-            if (in_mask(mask, k)) { o.push_back(k); }
-        }
-    } else {
-        for (int k = 1; k <= K; ++k) {
-            if (in_mask(mask, k)) { o.push_back(k); }
-        }
+    for (int k = 1; k <= K; ++k) {
+        if (in_mask(mask, k)) { o.push_back(k); }
     }
+    std::stable_sort(o.begin(), o.end(), mc);
     return o;
+}
+template <typename MC>
+bool mask_unique(unsigned mask, int K, MC const& mc)
+{
+    auto const o = mask_keys(mask, K, mc);
+    for (std::size_t i = 0; i + 1 < o.size(); ++i) {
+        if (!mc(o[i], o[i + 1])) { return false; }
+    }
+    return true;
 }
 
 // class of a key relative to a model set (computed from the case, never from the result)
 template <typename M>
 std::string key_class(M const& m, int k)
 {
-    if (m.count(k) != 0) { return "present"; }
+    if (m.count(k) != 0) { return *m.find(k) == k ? "present" : "equivalent-not-equal"; }
     if (m.empty()) { return "absent+empty-set"; }
     return m.upper_bound(k) == m.end() ? "absent+no-successor" : "absent+successor";
 }
 
-// iterator (a pointer for every tetl container used here) -> offset; -1000 when it does not
-// point into [begin, end] of the container
-template <typename B, typename I>
-long off_of(B const* b, B const* e, I it)
+// iterator (a pointer or a contiguous iterator) -> offset; -1000 when it does not point into
+// [begin, end] of the container
+template <typename B, typename IB, typename I>
+long off_of(IB b, IB e, I it)
 {
-    auto const pb = reinterpret_cast<std::uintptr_t>(b);
-    auto const pe = reinterpret_cast<std::uintptr_t>(e);
-    auto const pi = reinterpret_cast<std::uintptr_t>(static_cast<B const*>(it));
+    auto const pb = reinterpret_cast<std::uintptr_t>(static_cast<B const*>(std::to_address(b)));
+    auto const pe = reinterpret_cast<std::uintptr_t>(static_cast<B const*>(std::to_address(e)));
+    auto const pi = reinterpret_cast<std::uintptr_t>(static_cast<B const*>(std::to_address(it)));
     if (pi < pb || pi > pe || ((pi - pb) % sizeof(B)) != 0) { return -1000; }
     return long((pi - pb) / sizeof(B));
 }
@@ -190,6 +297,8 @@ struct SourceRange {
     }
     T const* first() const { return blk.data(); }
     T const* last() const { return blk.data() + src.size(); }
+    T* mfirst() { return blk.data(); }
+    T* mlast() { return blk.data() + src.size(); }
     bool unchanged() const
     {
         for (std::size_t i = 0; i < src.size(); ++i) {
@@ -197,6 +306,31 @@ struct SourceRange {
         }
         return true;
     }
+};
+
+// input iterator whose operator* yields an rvalue (what a set of move-only keys is filled from)
+template <typename T>
+struct MoveIt {
+    using iterator_category = etl::input_iterator_tag;
+    using value_type        = T;
+    using difference_type   = std::ptrdiff_t;
+    using pointer           = T*;
+    using reference         = T&&;
+    T* p;
+    T&& operator*() const { return std::move(*p); }
+    MoveIt& operator++()
+    {
+        ++p;
+        return *this;
+    }
+    MoveIt operator++(int)
+    {
+        auto c = *this;
+        ++p;
+        return c;
+    }
+    friend bool operator==(MoveIt a, MoveIt b) { return a.p == b.p; }
+    friend bool operator!=(MoveIt a, MoveIt b) { return a.p != b.p; }
 };
 
 // ---------------------------------------------------------------------------------------
@@ -228,9 +362,9 @@ void check_observers(Cx& cx, std::string const& fam, V& v, M const& m, std::size
         std::vector<int> got2;
         for (auto& e : v) { got2.push_back(value_of(e)); }
         if (got2 != seq) { cx.fail("C09", sub("begin/end"), g, cat("non-const iteration: tetl=", mc::show_seq(got2), " model=", mc::show_seq(seq))); }
-        Cmp const cmp{};
-        for (auto it = cv.begin(); it != cv.end() && it + 1 != cv.end(); ++it) {
-            if (!cmp(*it, *(it + 1)) || cmp(*(it + 1), *it)) {
+        auto const mcmp = m.key_comp();
+        for (std::size_t i = 0; i + 1 < got.size(); ++i) {
+            if (!mcmp(got[i], got[i + 1]) || mcmp(got[i + 1], got[i])) {
                 cx.fail("C09", sub("<invariant>"), "strictly-ascending", cat("not strictly ascending under the comparator: ", mc::show_seq(got)));
                 break;
             }
@@ -249,13 +383,14 @@ void check_observers(Cx& cx, std::string const& fam, V& v, M const& m, std::size
 
     // key_comp()/value_comp() order the keys like the comparator
     if constexpr (requires { cv.key_comp(); }) {
-        auto const kc = cv.key_comp();
-        auto const vc = cv.value_comp();
-        for (int a = 1; a <= 2; ++a) {
-            for (int b = 1; b <= 2; ++b) {
+        auto const kc   = cv.key_comp();
+        auto const vc   = cv.value_comp();
+        auto const mcmp = m.key_comp();
+        for (int a = 1; a <= 3; ++a) {
+            for (int b = 1; b <= 3; ++b) {
                 T const x(a);
                 T const y(b);
-                bool const want = CmpInfo<Cmp>::desc ? a > b : a < b;
+                bool const want = mcmp(a, b);
                 cx.eq("C09", sub("key_comp"), g, "key_comp()(a,b)", bool(kc(x, y)), want);
                 cx.eq("C09", sub("value_comp"), g, "value_comp()(a,b)", bool(vc(x, y)), want);
             }
@@ -264,6 +399,7 @@ void check_observers(Cx& cx, std::string const& fam, V& v, M const& m, std::size
 
     auto const moff = [&](auto it) { return long(std::distance(m.begin(), it)); };
     auto const voff = [&](auto it) { return off_of<T>(cv.begin(), cv.end(), it); };
+    std::size_t const n = m.size();
     for (int k = 0; k <= K + 1; ++k) {
         auto const cls     = key_class(m, k);
         long const w_find  = moff(m.find(k));
@@ -276,6 +412,8 @@ void check_observers(Cx& cx, std::string const& fam, V& v, M const& m, std::size
             {
                 auto it = v.find(key);
                 cx.eq("C09", s("find"), cls, "find, non-const", voff(it), w_find);
+                // the element found is the stored one (an equivalent key is not written over it)
+                if (w_find < long(n) && voff(it) == w_find) { cx.eq("C09", s("find"), cls, "*find", value_of(*it), seq[std::size_t(w_find)]); }
             }
             {
                 auto it = cv.find(key);
@@ -326,6 +464,10 @@ void check_observers(Cx& cx, std::string const& fam, V& v, M const& m, std::size
             }
             WKey const wk{k};
             all(wk, "K=wrapper");
+            if constexpr (std::is_same_v<T, int>) {
+                CKey const ck{k};
+                all(ck, "K=convertible-to-another-key");
+            }
         }
     }
     drain_registry<T>(cx, sub("<observers>"));
@@ -361,6 +503,10 @@ enum Kind : int {
     replace_k,
     erase_if_mask,
     full_probe,
+    ctor_comp,          // flat_set(comp)                          (stateful comparator)
+    ctor_range_comp,    // flat_set(first,last,comp)
+    ctor_su_range_comp, // flat_set(sorted_unique,first,last,comp)
+    refill,             // clear() and insert the same keys again, in reverse order
     // binary
     swap_member,
     swap_free,
@@ -374,23 +520,154 @@ struct Action {
 };
 
 // =======================================================================================
-// static_set<T,N,Cmp>  (Flat = false)   /   flat_set<T, static_vector<T,N>, Cmp>  (Flat = true)
+// static_set<T,N,Cmp>  (Flat = false)   /   flat_set<T, Container, Cmp>  (Flat = true)
+// Container: etl::static_vector<T,N> (CK = sv) or std::vector<T> (CK = stdvec, unbounded: N is
+// then only a number larger than the universe)
 // =======================================================================================
-template <bool Flat, typename T, std::size_t N, typename Cmp, int K, bool RawKey = false>
+enum ContKind : int { sv = 0, heapvec = 1 };
+
+// An unbounded sequence container with pointer iterators over exact-size heap storage: every
+// growth reallocates (so an iterator the adaptor keeps across an insertion dangles, and ASan sees
+// it), nothing of static_vector's extras (full(), capacity()) exists.  std::vector itself cannot be
+// used: etl::lower_bound / etl::distance reject iterators that carry the std:: category tags (API gap).
+template <typename T>
+struct HeapVec {
+    using value_type             = T;
+    using size_type              = std::size_t;
+    using difference_type        = std::ptrdiff_t;
+    using reference              = T&;
+    using const_reference        = T const&;
+    using pointer                = T*;
+    using const_pointer          = T const*;
+    using iterator               = T*;
+    using const_iterator         = T const*;
+    using reverse_iterator       = etl::reverse_iterator<iterator>;
+    using const_reverse_iterator = etl::reverse_iterator<const_iterator>;
+    static constexpr size_type limit = size_type(1) << 20;
+    std::vector<T> d;
+
+    HeapVec() = default;
+    template <typename It>
+    HeapVec(It first, It last) : d(first, last)
+    {
+        d.shrink_to_fit();
+    }
+    HeapVec(HeapVec const& o) : d(o.d) { d.shrink_to_fit(); }
+    HeapVec(HeapVec&& o) noexcept : d(std::move(o.d)) { o.d.clear(); }
+    HeapVec& operator=(HeapVec const& o)
+    {
+        if (this != &o) {
+            std::vector<T> n(o.d);
+            n.shrink_to_fit();
+            d.swap(n);
+        }
+        return *this;
+    }
+    HeapVec& operator=(HeapVec&& o) noexcept
+    {
+        if (this != &o) {
+            d = std::move(o.d);
+            o.d.clear();
+        }
+        return *this;
+    }
+    iterator begin() noexcept { return d.data(); }
+    const_iterator begin() const noexcept { return d.data(); }
+    const_iterator cbegin() const noexcept { return d.data(); }
+    iterator end() noexcept { return d.data() + d.size(); }
+    const_iterator end() const noexcept { return d.data() + d.size(); }
+    const_iterator cend() const noexcept { return d.data() + d.size(); }
+    reverse_iterator rbegin() noexcept { return reverse_iterator(end()); }
+    const_reverse_iterator rbegin() const noexcept { return const_reverse_iterator(end()); }
+    const_reverse_iterator crbegin() const noexcept { return const_reverse_iterator(end()); }
+    reverse_iterator rend() noexcept { return reverse_iterator(begin()); }
+    const_reverse_iterator rend() const noexcept { return const_reverse_iterator(begin()); }
+    const_reverse_iterator crend() const noexcept { return const_reverse_iterator(begin()); }
+    bool empty() const noexcept { return d.empty(); }
+    size_type size() const noexcept { return d.size(); }
+    size_type max_size() const noexcept { return limit; }
+    T* data() noexcept { return d.data(); }
+    T const* data() const noexcept { return d.data(); }
+    template <typename... A>
+    iterator emplace(const_iterator pos, A&&... a)
+    {
+        auto const off = pos - cbegin();
+        std::vector<T> n;
+        n.reserve(d.size() + 1);
+        for (difference_type i = 0; i < off; ++i) { n.push_back(std::move(d[std::size_t(i)])); }
+        n.emplace_back(std::forward<A>(a)...);
+        for (auto i = std::size_t(off); i < d.size(); ++i) { n.push_back(std::move(d[i])); }
+        d.swap(n);
+        return begin() + off;
+    }
+    template <typename... A>
+    reference emplace_back(A&&... a)
+    {
+        return *emplace(cend(), std::forward<A>(a)...);
+    }
+    iterator erase(const_iterator pos) { return erase(pos, pos + 1); }
+    iterator erase(const_iterator first, const_iterator last)
+    {
+        auto const off = first - cbegin();
+        auto const cnt = last - first;
+        if (cnt != 0) {
+            std::vector<T> n;
+            n.reserve(d.size() - std::size_t(cnt));
+            for (std::size_t i = 0; i < d.size(); ++i) {
+                if (difference_type(i) < off || difference_type(i) >= off + cnt) { n.push_back(std::move(d[i])); }
+            }
+            d.swap(n);
+        }
+        return begin() + off;
+    }
+    void clear() noexcept { std::vector<T>().swap(d); }
+    void swap(HeapVec& o) noexcept { d.swap(o.d); }
+    friend void swap(HeapVec& a, HeapVec& b) noexcept { a.swap(b); }
+};
+
+template <bool Flat, typename T, std::size_t N, typename Cmp, int K, bool RawKey = false, int CK = sv>
 struct SetSys {
-    using C      = etl::static_vector<T, N>;
+    static constexpr bool bounded = CK == sv;
+    static_assert(Flat || bounded);
+    static_assert(bounded || N > std::size_t(K));
+    using C      = std::conditional_t<bounded, etl::static_vector<T, N>, HeapVec<T>>;
     using V      = std::conditional_t<Flat, etl::flat_set<T, C, Cmp>, etl::static_set<T, N, Cmp>>;
     using Action = ::Action;
-    static constexpr bool desc    = CmpInfo<Cmp>::desc;
-    static constexpr bool trivial = std::is_trivially_copyable_v<T>;
-    using MCmp                    = std::conditional_t<desc, std::greater<int>, std::less<int>>;
-    using M                       = std::set<int, MCmp>;
+    using CI     = CmpInfo<Cmp>;
+    static constexpr bool stateful = CI::stateful;
+    static constexpr bool trivial  = std::is_trivially_copyable_v<T> && bounded;
+    static constexpr bool copyable = std::is_copy_constructible_v<T>;
+    // static_vector's move assignment is constrained on is_assignable<T&, T&>: over move-only elements
+    // it does not exist, and with it go swap / operator=(&&) / replace of the sets (API gap)
+    static constexpr bool cont_assignable = std::is_move_assignable_v<C>;
+    using MCmp                     = typename CI::model;
+    using M                        = std::set<int, MCmp>;
     static constexpr unsigned all_masks = 1U << K;
 #if defined(MC_FLAVOUR_CHK)
-    static constexpr bool probes = Flat && std::is_same_v<T, int> && N > 0;
+    static constexpr bool probes = Flat && bounded && std::is_same_v<T, int> && N > 0;
 #else
     static constexpr bool probes = false;
 #endif
+    // masks of keys handed to erase_if / replace / the sorted_unique constructors: every subset of
+    // the universe up to K = 8; for larger universes the subsets with at most two keys and those
+    // that lack at most two keys (plus, for containers, what still fits)
+    static bool mask_enumerated(unsigned mask)
+    {
+        if constexpr (K <= 8) {
+            return true;
+        } else {
+            int const pc = popcount(mask);
+            return pc <= 2 || pc >= K - 2;
+        }
+    }
+    static std::size_t cap()
+    {
+        if constexpr (bounded) {
+            return N;
+        } else {
+            return std::size_t(C::limit);
+        }
+    }
 
     struct State {
         alignas(alignof(V) > 16 ? alignof(V) : 16) unsigned char buf[sizeof(V) + 32];
@@ -418,7 +695,9 @@ struct SetSys {
     std::string family() const { return Flat ? "flat_set" : "static_set"; }
     std::string name() const
     {
-        if constexpr (Flat) {
+        if constexpr (Flat && !bounded) {
+            return cat("flat_set<", tname<T>(), ",heap_vector,", CmpInfo<Cmp>::name(), ">");
+        } else if constexpr (Flat) {
             return cat("flat_set<", tname<T>(), ",static_vector<", N, ">,", CmpInfo<Cmp>::name(), ">");
         } else {
             return cat("static_set<", tname<T>(), ",", N, ",", CmpInfo<Cmp>::name(), ">");
@@ -456,6 +735,10 @@ struct SetSys {
         case replace_k: return f + "::replace";
         case erase_if_mask: return cat("erase_if(", f, "&,pred)");
         case full_probe: return f + "::emplace";
+        case ctor_comp: return cat(f, "::", f, "(comp)");
+        case ctor_range_comp: return cat(f, "::", f, "(first,last,comp)");
+        case ctor_su_range_comp: return cat(f, "::", f, "(sorted_unique,first,last,comp)");
+        case refill: return f + "::clear";
         case swap_member: return f + "::swap";
         case swap_free: return cat("swap(", f, "&,", f, "&)");
         case copy_assign: return f + "::operator=(const&)";
@@ -468,7 +751,10 @@ struct SetSys {
     std::string show(Action const& a) const
     {
         auto const sq = [&](int i) { return mc::show_seq(pool()[std::size_t(i)]); };
-        auto const mk = [&](int mask) { return mc::show_seq(mask_keys(unsigned(mask), K, desc)); };
+        // stateless comparators: keys in comparator order; run-time direction: ascending here, handed
+        // over in the order of the comparator in force
+        auto const mk  = [&](int mask) { return cat(mc::show_seq(mask_keys(unsigned(mask), K, MCmp{})), stateful ? " (in comparator order)" : ""); };
+        auto const dir = [](int d) { return d != 0 ? "descending" : "ascending"; };
         switch (a.k) {
         case ins_l: return cat("insert(const& ", a.a, ")");
         case ins_r: return cat("insert(&& ", a.a, ")");
@@ -499,6 +785,10 @@ struct SetSys {
             char const* forms[] = {"emplace", "insert(const&)", "insert(&&)", "insert(begin, const&)"};
             return cat(forms[a.b], " of new key ", a.a, " into the full set");
         }
+        case ctor_comp: return cat("s = set(comp ", dir(a.a), ")");
+        case ctor_range_comp: return cat("s = set(first,last over ", sq(a.a), ", comp ", dir(a.b), ")");
+        case ctor_su_range_comp: return cat("s = set(sorted_unique, first,last over ", mk(a.a), ", comp ", dir(a.b), ")");
+        case refill: return "keys = contents; clear(); insert(&&) the keys again in reverse order";
         case swap_member: return "s.swap(other)";
         case swap_free: return "swap(s, other)";
         case copy_assign: return "s = other";
@@ -510,21 +800,23 @@ struct SetSys {
 
     void unary(State const& st, std::vector<Action>& out) const
     {
-        M const& m  = st.m;
-        int const s = int(m.size());
-        int const n = int(N);
+        M const& m      = st.m;
+        auto const mcmp = m.key_comp();
+        int const s     = int(m.size());
+        int const n     = bounded ? int(N) : 1000000;
         for (int k = 1; k <= K; ++k) {
-            bool const present = m.count(k) != 0;
+            bool const present = m.count(k) != 0; // an equivalent key is in the set
             // static_set reports failure for a new key in a full set: valid in every state.
             // flat_set over a fixed-capacity container: a new key needs room (container precondition).
             bool const valid = !Flat || present || s < n;
             if (valid) {
-                out.push_back({ins_l, k, 0, 0});
+                if constexpr (copyable) { out.push_back({ins_l, k, 0, 0}); }
                 out.push_back({ins_r, k, 0, 0});
-                out.push_back({emplace_k, k, 0, 0});
+                // static_set::emplace requires a copy constructible key (API gap for move-only keys)
+                if constexpr (Flat || copyable) { out.push_back({emplace_k, k, 0, 0}); }
                 if constexpr (Flat) {
                     for (int p = 0; p <= s; ++p) {
-                        out.push_back({ins_hint_l, p, k, 0});
+                        if constexpr (copyable) { out.push_back({ins_hint_l, p, k, 0}); }
                         out.push_back({ins_hint_r, p, k, 0});
                         out.push_back({emplace_hint_k, p, k, 0});
                     }
@@ -542,6 +834,7 @@ struct SetSys {
             for (int l = f; l <= s; ++l) { out.push_back({erase_range, f, l, 0}); }
         }
         out.push_back({clear_k, 0, 0, 0});
+        if (s > 0) { out.push_back({refill, 0, 0, 0}); }
         auto const& pl = pool();
         for (int i = 0; i < int(pl.size()); ++i) {
             auto const& q = pl[std::size_t(i)];
@@ -550,38 +843,62 @@ struct SetSys {
             if (int(u.size()) <= n) { out.push_back({ins_range, i, 0, 0}); }
             if (int(q.size()) <= n) {
                 out.push_back({ctor_range, i, 0, 0});
-                if constexpr (Flat) { out.push_back({ctor_container, i, 0, 0}); }
+                if constexpr (Flat && copyable) { out.push_back({ctor_container, i, 0, 0}); }
+                if constexpr (Flat && stateful) {
+                    out.push_back({ctor_range_comp, i, 0, 0});
+                    out.push_back({ctor_range_comp, i, 1, 0});
+                }
             }
         }
         if constexpr (Flat) {
             for (unsigned mask = 0; mask < all_masks; ++mask) {
+                if (!mask_enumerated(mask)) { continue; }
                 if (popcount(mask) <= n) {
-                    out.push_back({replace_k, int(mask), 0, 0});
-                    out.push_back({ctor_su_container, int(mask), 0, 0});
-                    out.push_back({ctor_su_range, int(mask), 0, 0});
+                    // a container handed over as "sorted unique" must be that under the comparator in force
+                    if constexpr (cont_assignable) {
+                        if (mask_unique(mask, K, mcmp)) { out.push_back({replace_k, int(mask), 0, 0}); }
+                    }
+                    if (mask_unique(mask, K, MCmp{})) {
+                        out.push_back({ctor_su_container, int(mask), 0, 0});
+                        // (static_vector's range constructor only takes pointers: no moving iterator)
+                        if constexpr (copyable) { out.push_back({ctor_su_range, int(mask), 0, 0}); }
+                    }
+                    if constexpr (stateful) {
+                        out.push_back({ctor_su_range_comp, int(mask), 0, 0});
+                        out.push_back({ctor_su_range_comp, int(mask), 1, 0});
+                    }
                 }
                 out.push_back({erase_if_mask, int(mask), 0, 0});
             }
             out.push_back({extract_k, 0, 0, 0});
-            out.push_back({extract_replace, 0, 0, 0});
+            if constexpr (cont_assignable) { out.push_back({extract_replace, 0, 0, 0}); }
+            if constexpr (stateful) {
+                out.push_back({ctor_comp, 0, 0, 0});
+                out.push_back({ctor_comp, 1, 0, 0});
+            }
         }
-        out.push_back({self_copy_assign, 0, 0, 0});
-        out.push_back({self_swap, 0, 0, 0});
-        out.push_back({self_swap_free, 0, 0, 0});
-        out.push_back({copy_construct, 0, 0, 0});
+        if constexpr (copyable) { out.push_back({self_copy_assign, 0, 0, 0}); }
+        if constexpr (cont_assignable) {
+            out.push_back({self_swap, 0, 0, 0});
+            out.push_back({self_swap_free, 0, 0, 0});
+        }
+        if constexpr (copyable) { out.push_back({copy_construct, 0, 0, 0}); }
         out.push_back({move_construct, 0, 0, 0});
     }
 
     void binary(std::vector<Action>& out) const
     {
-        out.push_back({swap_member, 0, 0, 0});
-        out.push_back({swap_free, 0, 0, 0});
-        out.push_back({copy_assign, 0, 0, 0});
-        out.push_back({move_assign, 0, 0, 0});
+        if constexpr (cont_assignable) {
+            out.push_back({swap_member, 0, 0, 0});
+            out.push_back({swap_free, 0, 0, 0});
+        }
+        if constexpr (copyable) { out.push_back({copy_assign, 0, 0, 0}); }
+        if constexpr (cont_assignable) { out.push_back({move_assign, 0, 0, 0}); }
         out.push_back({relational, 0, 0, 0});
     }
 
-    static long voff(V const& v, T const* it) { return off_of<T>(v.begin(), v.end(), it); }
+    template <typename I>
+    static long voff(V const& v, I it) { return off_of<T>(v.begin(), v.end(), it); }
 
     // content + size of the implementation equal the model (iteration order = comparator order)
     bool same(Cx& cx, std::string const& subj, std::string const& cls, V const& v, M const& m, char const* what) const
@@ -605,7 +922,7 @@ struct SetSys {
     bool same_container(Cx& cx, std::string const& subj, std::string const& cls, C const& c, M const& m, char const* what) const
     {
         std::vector<int> got;
-        for (std::size_t i = 0; i < c.size() && i < N; ++i) { got.push_back(value_of(c.data()[i])); }
+        for (std::size_t i = 0; i < c.size() && i < std::min<std::size_t>(N, 64); ++i) { got.push_back(value_of(c.data()[i])); }
         std::vector<int> const want(m.begin(), m.end());
         if (c.size() != m.size() || got != want) {
             cx.fail("C09", subj, cls, cat(what, ": tetl=", mc::show_seq(got), " (size ", c.size(), ") model=", mc::show_seq(want)));
@@ -639,7 +956,7 @@ struct SetSys {
         long ri          = -2; // returned position / count, implementation
         long rm          = -2; // ... model
         bool check_other = false;
-        bool const full  = m.size() == N;
+        bool const full  = bounded && m.size() == N;
 
         switch (a.k) {
         case ins_l:
@@ -651,41 +968,48 @@ struct SetSys {
             bool const hinted  = a.k == ins_hint_l || a.k == ins_hint_r || a.k == emplace_hint_k;
             int const key      = hinted ? a.b : a.a;
             bool const present = m.count(key) != 0;
-            cls                = cat(full ? "full+" : "", present ? "duplicate" : "new");
+            // "equivalent": the comparator calls the stored key and the new one equivalent, but they differ
+            cls                = cat(full ? "full+" : "", present ? (*m.find(key) == key ? "duplicate" : "equivalent") : "new");
             long inserted      = -1;
             T const* pos       = nullptr;
             if constexpr (Flat) {
                 if (hinted) {
                     auto hint = v.cbegin() + a.a;
                     if (a.k == ins_hint_l) {
-                        T const x(key);
-                        auto it = v.insert(hint, x);
-                        pos     = it;
+                        if constexpr (copyable) {
+                            T const x(key);
+                            auto it = v.insert(hint, x);
+                            pos     = std::to_address(it);
+                        }
                     } else if (a.k == ins_hint_r) {
                         T x(key);
                         auto it = v.insert(hint, std::move(x));
-                        pos     = it;
+                        pos     = std::to_address(it);
                     } else {
                         auto it = v.emplace_hint(hint, key);
-                        pos     = it;
+                        pos     = std::to_address(it);
                     }
                 }
             }
             if (!hinted) {
                 if (a.k == ins_l) {
-                    T const x(key);
-                    auto r   = v.insert(x);
-                    pos      = r.first;
-                    inserted = r.second ? 1 : 0;
+                    if constexpr (copyable) {
+                        T const x(key);
+                        auto r   = v.insert(x);
+                        pos      = std::to_address(r.first);
+                        inserted = r.second ? 1 : 0;
+                    }
                 } else if (a.k == ins_r) {
                     T x(key);
                     auto r   = v.insert(std::move(x));
-                    pos      = r.first;
+                    pos      = std::to_address(r.first);
                     inserted = r.second ? 1 : 0;
                 } else {
-                    auto r   = v.emplace(key);
-                    pos      = r.first;
-                    inserted = r.second ? 1 : 0;
+                    if constexpr (Flat || copyable) {
+                        auto r   = v.emplace(key);
+                        pos      = std::to_address(r.first);
+                        inserted = r.second ? 1 : 0;
+                    }
                 }
             }
             if (full && !present) {
@@ -702,6 +1026,9 @@ struct SetSys {
                     cx.fail("C09", subj, cls,
                         cat("returned iterator: tetl=", voffs == -1000 ? std::string("<not an iterator into the set>") : cat("begin+", voffs),
                             " model=begin+", moffs));
+                } else if (value_of(*pos) != *mr.first) {
+                    // the element the result points at is the one that was in the set first
+                    cx.fail("C09", subj, cls, cat("element the returned iterator points at: tetl=", value_of(*pos), " model=", *mr.first));
                 }
             }
             break;
@@ -713,8 +1040,12 @@ struct SetSys {
             cls = src.empty() ? "empty-range" : (dup ? "range-with-present-keys" : "range");
             {
                 SourceRange<T> r(src);
-                v.insert(r.first(), r.last());
-                if (!r.unchanged()) { cx.fail("C09", subj, cls, "insert(first,last) changed its source range"); }
+                if constexpr (copyable) {
+                    v.insert(r.first(), r.last());
+                    if (!r.unchanged()) { cx.fail("C09", subj, cls, "insert(first,last) changed its source range"); }
+                } else {
+                    v.insert(MoveIt<T>{r.mfirst()}, MoveIt<T>{r.mlast()});
+                }
                 if (!r.blk.intact()) { cx.fail("C02", subj, "canary", "wrote outside the source range"); }
             }
             m.insert(src.begin(), src.end());
@@ -733,6 +1064,7 @@ struct SetSys {
             ri       = voff(v, it);
             auto mit = m.erase(std::next(m.begin(), a.a));
             rm       = long(std::distance(m.begin(), mit));
+            if (ri == rm && mit != m.end()) { cx.eq("C09", subj, cls, "element behind the erased one (through the returned iterator)", value_of(*it), *mit); }
             break;
         }
         case erase_cit: {
@@ -742,6 +1074,7 @@ struct SetSys {
                 ri       = voff(v, it);
                 auto mit = m.erase(std::next(m.begin(), a.a));
                 rm       = long(std::distance(m.begin(), mit));
+                if (ri == rm && mit != m.end()) { cx.eq("C09", subj, cls, "element behind the erased one (through the returned iterator)", value_of(*it), *mit); }
             }
             break;
         }
@@ -757,6 +1090,10 @@ struct SetSys {
             }
             auto mit = m.erase(std::next(m.begin(), a.a), std::next(m.begin(), a.b));
             rm       = long(std::distance(m.begin(), mit));
+            if (ri == rm && mit != m.end()) {
+                int const behind = value_of(*(v.begin() + ri));
+                cx.eq("C09", subj, cls, "element behind the erased range (through the returned position)", behind, *mit);
+            }
             break;
         }
         case clear_k: {
@@ -764,25 +1101,43 @@ struct SetSys {
             m.clear();
             break;
         }
+        case refill: {
+            // fill - clear - refill: the same keys go back in, in the opposite order, over the slots
+            // the cleared elements left behind
+            cls = "refill-after-clear";
+            std::vector<int> const keys(m.begin(), m.end());
+            v.clear();
+            if (!v.empty() || v.size() != 0 || v.begin() != v.end()) { cx.fail("C09", subj, cls, cat("size() after clear(): ", v.size())); }
+            for (auto it = keys.rbegin(); it != keys.rend(); ++it) {
+                T x(*it);
+                auto r = v.insert(std::move(x));
+                if (!r.second) { cx.fail("C09", family() + "::insert(&&)", cls, cat("insert of ", *it, " into the cleared set reported a duplicate")); }
+            }
+            break;
+        }
         case self_copy_assign: {
-            cls      = "self";
-            V& alias = v;
-            v        = alias;
-            if (std::size_t(v.size()) != m.size()) {
-                cx.fail("C03", subj, "self-assignment-changes-value", cat("size after s = s: tetl=", v.size(), " before=", m.size()));
-                check_lifetimes<T>(cx, subj, s.lo(), s.hi(), v.size());
-                return;
+            if constexpr (copyable) {
+                cls      = "self";
+                V& alias = v;
+                v        = alias;
+                if (std::size_t(v.size()) != m.size()) {
+                    cx.fail("C03", subj, "self-assignment-changes-value", cat("size after s = s: tetl=", v.size(), " before=", m.size()));
+                    check_lifetimes<T>(cx, subj, s.lo(), s.hi(), v.size());
+                    return;
+                }
             }
             break;
         }
         case self_swap:
         case self_swap_free: {
             cls = "self";
-            if (a.k == self_swap) {
-                v.swap(v);
-            } else {
-                using etl::swap;
-                swap(v, v);
+            if constexpr (cont_assignable) {
+                if (a.k == self_swap) {
+                    v.swap(v);
+                } else {
+                    using etl::swap;
+                    swap(v, v);
+                }
             }
             if (std::size_t(v.size()) != m.size()) {
                 cx.fail("C03", subj, "self-swap-changes-value", cat("size after swapping s with itself: tetl=", v.size(), " before=", m.size()));
@@ -792,20 +1147,22 @@ struct SetSys {
             break;
         }
         case copy_construct: {
-            {
-                V copy(static_cast<V const&>(v));
-                same(cx, subj, cls, copy, m, "copy");
-                // independence: mutate the copy, the source must not change
-                copy.clear();
-                if constexpr (N > 0) { copy.emplace(K); }
-                if (!same(cx, subj, cls, v, m, "source after mutating its copy")) { return; }
+            if constexpr (copyable) {
+                {
+                    V copy(static_cast<V const&>(v));
+                    same(cx, subj, cls, copy, m, "copy");
+                    // independence: mutate the copy, the source must not change
+                    copy.clear();
+                    if constexpr (N > 0) { copy.emplace(K); }
+                    if (!same(cx, subj, cls, v, m, "source after mutating its copy")) { return; }
+                }
+                alignas(V) unsigned char tmp[sizeof(V)];
+                std::memset(tmp, 0x5A, sizeof tmp);
+                V* t = ::new (static_cast<void*>(tmp)) V(static_cast<V const&>(v));
+                reconstruct(s, [&](void* at) { return ::new (at) V(static_cast<V const&>(*t)); });
+                t->~V();
+                check_scratch<T>(cx, subj, tmp, tmp + sizeof tmp, "a destroyed copy");
             }
-            alignas(V) unsigned char tmp[sizeof(V)];
-            std::memset(tmp, 0x5A, sizeof tmp);
-            V* t = ::new (static_cast<void*>(tmp)) V(static_cast<V const&>(v));
-            reconstruct(s, [&](void* at) { return ::new (at) V(static_cast<V const&>(*t)); });
-            t->~V();
-            check_scratch<T>(cx, subj, tmp, tmp + sizeof tmp, "a destroyed copy");
             break;
         }
         case move_construct: {
@@ -814,7 +1171,7 @@ struct SetSys {
             V* t = ::new (static_cast<void*>(tmp)) V(std::move(v));
             same(cx, subj, cls, *t, m, "moved-to object");
             // the source only has to stay a valid object
-            if (std::size_t(v.size()) > N) { cx.fail("C03", subj, "moved-from-invalid", cat("moved-from size ", v.size())); }
+            if (std::size_t(v.size()) > cap()) { cx.fail("C03", subj, "moved-from-invalid", cat("moved-from size ", v.size())); }
             v.clear();
             reconstruct(s, [&](void* at) { return ::new (at) V(std::move(*t)); });
             t->clear();
@@ -823,45 +1180,92 @@ struct SetSys {
             break;
         }
         case ctor_range:
+        case ctor_range_comp:
         case ctor_container: {
             auto const& src = pool()[std::size_t(a.a)];
-            M fresh(src.begin(), src.end());
-            bool const sorted = std::is_sorted(src.begin(), src.end(), MCmp{});
+            // constructors without a comparator argument value-initialise it
+            MCmp mcmp{};
+            if constexpr (stateful) {
+                if (a.k == ctor_range_comp) { mcmp = MCmp{a.b != 0}; }
+            }
+            M fresh(src.begin(), src.end(), mcmp);
+            bool const sorted = std::is_sorted(src.begin(), src.end(), mcmp);
             cls               = cat(sorted ? "sorted" : "unsorted", fresh.size() != src.size() ? "+duplicates" : "");
             {
                 SourceRange<T> r(src);
                 if (a.k == ctor_range) {
-                    reconstruct(s, [&](void* at) { return ::new (at) V(r.first(), r.last()); });
+                    if constexpr (copyable) {
+                        reconstruct(s, [&](void* at) { return ::new (at) V(r.first(), r.last()); });
+                    } else {
+                        reconstruct(s, [&](void* at) { return ::new (at) V(MoveIt<T>{r.mfirst()}, MoveIt<T>{r.mlast()}); });
+                    }
+                } else if (a.k == ctor_range_comp) {
+                    if constexpr (Flat && stateful) {
+                        Cmp const comp{a.b != 0};
+                        reconstruct(s, [&](void* at) { return ::new (at) V(r.first(), r.last(), comp); });
+                    }
                 } else {
-                    if constexpr (Flat) {
+                    if constexpr (Flat && copyable) {
                         C const c(r.first(), r.last());
                         reconstruct(s, [&](void* at) { return ::new (at) V(c); });
                     }
                 }
-                if (!r.unchanged()) { cx.fail("C09", subj, cls, "the constructor changed its source range"); }
+                if constexpr (copyable) {
+                    if (!r.unchanged()) { cx.fail("C09", subj, cls, "the constructor changed its source range"); }
+                }
                 if (!r.blk.intact()) { cx.fail("C02", subj, "canary", "wrote outside the source range"); }
             }
             m = std::move(fresh);
             break;
         }
+        case ctor_comp: {
+            if constexpr (Flat && stateful) {
+                cls = a.a != 0 ? "descending" : "ascending";
+                Cmp const comp{a.a != 0};
+                reconstruct(s, [&](void* at) { return ::new (at) V(comp); });
+                m = M(MCmp{a.a != 0});
+            }
+            break;
+        }
         case ctor_su_container:
         case ctor_su_range:
+        case ctor_su_range_comp:
         case replace_k: {
             if constexpr (Flat) {
-                auto const keys = mask_keys(unsigned(a.a), K, desc);
+                // replace keeps the comparator in force; the other constructors value-initialise it
+                MCmp mcmp{};
+                if (a.k == replace_k) { mcmp = m.key_comp(); }
+                if constexpr (stateful) {
+                    if (a.k == ctor_su_range_comp) { mcmp = MCmp{a.b != 0}; }
+                }
+                auto const keys = mask_keys(unsigned(a.a), K, mcmp);
                 cls             = keys.empty() ? "empty-container" : "general";
                 if (a.k == ctor_su_container) {
                     C c = container_of(keys);
-                    reconstruct(s, [&](void* at) { return ::new (at) V(etl::sorted_unique, c); });
+                    if constexpr (copyable) {
+                        reconstruct(s, [&](void* at) { return ::new (at) V(etl::sorted_unique, c); });
+                    } else {
+                        reconstruct(s, [&](void* at) { return ::new (at) V(etl::sorted_unique, std::move(c)); });
+                    }
                 } else if (a.k == ctor_su_range) {
                     SourceRange<T> r(keys);
-                    reconstruct(s, [&](void* at) { return ::new (at) V(etl::sorted_unique, r.first(), r.last()); });
+                    if constexpr (copyable) {
+                        reconstruct(s, [&](void* at) { return ::new (at) V(etl::sorted_unique, r.first(), r.last()); });
+                    }
+                } else if (a.k == ctor_su_range_comp) {
+                    if constexpr (stateful) {
+                        SourceRange<T> r(keys);
+                        Cmp const comp{a.b != 0};
+                        reconstruct(s, [&](void* at) { return ::new (at) V(etl::sorted_unique, r.first(), r.last(), comp); });
+                    }
                 } else {
-                    C c = container_of(keys);
-                    v.replace(std::move(c));
-                    if (c.size() > N) { cx.fail("C03", subj, "moved-from-invalid", cat("moved-from container size ", c.size())); }
+                    if constexpr (cont_assignable) {
+                        C c = container_of(keys);
+                        v.replace(std::move(c));
+                        if (c.size() > cap()) { cx.fail("C03", subj, "moved-from-invalid", cat("moved-from container size ", c.size())); }
+                    }
                 }
-                m = M(keys.begin(), keys.end());
+                m = M(keys.begin(), keys.end(), mcmp);
             }
             break;
         }
@@ -878,7 +1282,7 @@ struct SetSys {
                         return;
                     }
                     if (a.k == extract_replace) {
-                        v.replace(std::move(c));
+                        if constexpr (cont_assignable) { v.replace(std::move(c)); }
                     } else {
                         m.clear();
                     }
@@ -931,31 +1335,37 @@ struct SetSys {
         }
         case swap_member:
         case swap_free: {
-            if (a.k == swap_member) {
-                v.swap(*p->v);
-            } else {
-                using etl::swap;
-                swap(v, *p->v);
+            if constexpr (cont_assignable) {
+                if (a.k == swap_member) {
+                    v.swap(*p->v);
+                } else {
+                    using etl::swap;
+                    swap(v, *p->v);
+                }
+                m.swap(p->m);
+                check_other = true;
             }
-            m.swap(p->m);
-            check_other = true;
             break;
         }
         case copy_assign: {
-            V& ret = (v = static_cast<V const&>(*p->v));
-            if (&ret != &v) { cx.fail("C09", subj, cls, "operator= did not return *this"); }
-            m           = p->m;
-            check_other = true;
+            if constexpr (copyable) {
+                V& ret = (v = static_cast<V const&>(*p->v));
+                if (&ret != &v) { cx.fail("C09", subj, cls, "operator= did not return *this"); }
+                m           = p->m;
+                check_other = true;
+            }
             break;
         }
         case move_assign: {
-            v = std::move(*p->v);
-            m = p->m;
-            if (std::size_t(p->v->size()) > N) { cx.fail("C03", subj, "moved-from-invalid", cat("moved-from size ", p->v->size())); }
-            // moved-from source: only required to be valid; normalise it
-            p->v->clear();
-            p->m.clear();
-            check_other = true;
+            if constexpr (cont_assignable) {
+                v = std::move(*p->v);
+                m = p->m;
+                if (std::size_t(p->v->size()) > cap()) { cx.fail("C03", subj, "moved-from-invalid", cat("moved-from size ", p->v->size())); }
+                // moved-from source: only required to be valid; normalise it
+                p->v->clear();
+                p->m.clear();
+                check_other = true;
+            }
             break;
         }
         case relational: {
@@ -963,7 +1373,14 @@ struct SetSys {
             V const& y = *p->v;
             M const& mx = m;
             M const& my = p->m;
-            cls         = mx == my ? "equal" : (mx.size() == my.size() ? "same-size" : "different-size");
+            {
+                // strict prefix: the shorter operand's end() is reached while everything before it is equal
+                std::vector<int> const sx(mx.begin(), mx.end());
+                std::vector<int> const sy(my.begin(), my.end());
+                auto const common = std::min(sx.size(), sy.size());
+                bool const prefix = sx.size() != sy.size() && std::equal(sx.begin(), sx.begin() + long(common), sy.begin());
+                cls               = mx == my ? "equal" : (mx.size() == my.size() ? "same-size" : (prefix ? "different-size+prefix" : "different-size"));
+            }
             cx.eq("C09", subj, cls, "==", bool(x == y), mx == my);
             cx.eq("C09", subj, cls, "!=", bool(x != y), mx != my);
             cx.eq("C09", subj, cls, "<", bool(x < y), mx < my);
@@ -979,7 +1396,18 @@ struct SetSys {
                 cat("returned position/count: tetl=", ri == -1000 ? std::string("<not an iterator into the set>") : cat(ri), " model=", rm));
         }
         same(cx, subj, cls, *s.v, s.m, "after the operation");
-        if (std::size_t(s.v->max_size()) != N) { cx.fail("C09", subj, cls, cat("max_size() = ", s.v->max_size())); }
+        if (std::size_t(s.v->max_size()) != cap()) { cx.fail("C09", subj, cls, cat("max_size() = ", s.v->max_size())); }
+        if constexpr (stateful) {
+            // the comparator in force is part of the value: constructors store it, swap exchanges it,
+            // assignment copies it, clear/extract/replace keep it
+            if (s.v->key_comp().desc != s.m.key_comp().desc) {
+                cx.fail("C09", subj, "comparator-state", cat("key_comp() direction: tetl=", s.v->key_comp().desc ? "descending" : "ascending", " model=", s.m.key_comp().desc ? "descending" : "ascending"));
+            }
+            // (the comparator of a moved-from set is unspecified: not compared after move assignment)
+            if (check_other && p != nullptr && a.k != move_assign && p->v->key_comp().desc != p->m.key_comp().desc) {
+                cx.fail("C09", subj, "comparator-state", "key_comp() direction of the other operand differs from the model");
+            }
+        }
         check_lifetimes<T>(cx, subj, s.lo(), s.hi(), s.v->size()); // C03: as many live keys as the set says it holds
         if (check_other && p != nullptr) {
             same(cx, subj, cls, *p->v, p->m, "other operand after the operation");
@@ -987,12 +1415,13 @@ struct SetSys {
         }
     }
 
-    void observe(State const& st, Cx& cx) const { check_observers<T, K, Cmp, true>(cx, family(), *st.v, st.m, N); }
+    void observe(State const& st, Cx& cx) const { check_observers<T, K, Cmp, bounded>(cx, family(), *st.v, st.m, cap()); }
 
     std::string key(State const& st) const
     {
         std::string k;
         for (int x : st.m) { k += char('0' + x); }
+        if constexpr (stateful) { k += st.m.key_comp().desc ? 'v' : '^'; }
         k += '|';
         if constexpr (RawKey && trivial) {
             k.append(reinterpret_cast<char const*>(st.v), sizeof(V));
@@ -1004,7 +1433,8 @@ struct SetSys {
     std::string obs(State const& st) const
     {
         std::string o = cat(st.v->size(), ":");
-        auto const n  = std::min<std::size_t>(st.v->size(), N);
+        if constexpr (stateful) { o += st.v->key_comp().desc ? "v:" : "^:"; }
+        auto const n  = std::min<std::size_t>(st.v->size(), std::min<std::size_t>(N, 64));
         for (std::size_t i = 0; i < n; ++i) { o += cat(value_of(*(st.v->begin() + i)), ","); }
         return o;
     }
@@ -1057,9 +1487,9 @@ C fill_container(std::vector<int> const& keys)
 template <typename T, typename C, typename Cmp, int K, bool WithReverse>
 void multiset_sweep(mc::Reporter& r, std::string const& cfg, int maxLen, std::size_t cap)
 {
-    using MS            = etl::flat_multiset<T, C, Cmp>;
-    constexpr bool desc = CmpInfo<Cmp>::desc;
-    using MCmp          = std::conditional_t<desc, std::greater<int>, std::less<int>>;
+    using MS                = etl::flat_multiset<T, C, Cmp>;
+    using MCmp              = typename CmpInfo<Cmp>::model;
+    constexpr bool classes  = CmpInfo<Cmp>::classes;
     std::string const subj_c  = "flat_multiset::flat_multiset(container)";
     std::string const subj_se = "flat_multiset::flat_multiset(sorted_equivalent,container)";
     std::string kase;
@@ -1069,16 +1499,26 @@ void multiset_sweep(mc::Reporter& r, std::string const& cfg, int maxLen, std::si
         for (auto it = ms.begin(); it != ms.end(); ++it) { o.push_back(value_of(*it)); }
         return o;
     };
-    // default construction
+    // default construction, construction from a comparator
     {
         kase         = cat(cfg, ": default construction");
         mc::Trap t   = mc::guarded([&] {
             MS ms;
             MS ms2{Cmp{}};
+            MS const& cms2 = ms2;
             if (!ms.empty() || ms.size() != 0 || ms.begin() != ms.end() || !ms2.empty()) {
                 cx.fail("C09", "flat_multiset::flat_multiset()", "general", "a default-constructed flat_multiset is not empty");
             }
+            if (cms2.size() != 0 || cms2.begin() != cms2.end() || cms2.cbegin() != cms2.cend()) {
+                cx.fail("C09", "flat_multiset::flat_multiset(comp)", "general", "a flat_multiset constructed from a comparator is not empty");
+            }
+            if constexpr (WithReverse) {
+                if (cms2.rbegin() != cms2.rend() || cms2.crbegin() != cms2.crend() || ms2.rbegin() != ms2.rend()) {
+                    cx.fail("C09", "flat_multiset::rbegin/rend", "empty", "rbegin() != rend() on an empty flat_multiset");
+                }
+            }
             if (std::size_t(ms.max_size()) != cap) { cx.fail("C09", "flat_multiset::max_size", "general", cat("max_size() = ", ms.max_size())); }
+            if (std::size_t(cms2.max_size()) != cap) { cx.fail("C09", "flat_multiset::max_size", "general", cat("max_size() = ", cms2.max_size())); }
         });
         if (t != mc::Trap::none) { cx.fail(t == mc::Trap::assert_fired ? "C05" : "C02", "flat_multiset::flat_multiset()", mc::trap_name(t), mc::describe_trap(t)); }
         drain_registry<T>(cx, "flat_multiset::flat_multiset()");
@@ -1091,11 +1531,18 @@ void multiset_sweep(mc::Reporter& r, std::string const& cfg, int maxLen, std::si
             r.not_exhaustive("deadline");
             break;
         }
+        // expected: the same elements (as a multiset, by identity), weakly ascending under the comparator.
+        // Where equivalence is identity that is exactly the sorted sequence; with larger equivalence
+        // classes the order inside a class is unspecified (sort is not required to be stable)
         std::vector<int> want = src;
         std::stable_sort(want.begin(), want.end(), MCmp{});
-        bool const sorted = want == src;
+        std::vector<int> by_value = src;
+        std::sort(by_value.begin(), by_value.end());
+        bool const sorted = std::is_sorted(src.begin(), src.end(), MCmp{});
         bool const dups   = std::set<int>(src.begin(), src.end()).size() != src.size();
-        auto const cls    = cat(src.empty() ? "empty" : (sorted ? "sorted" : "unsorted"), dups ? "+duplicates" : "");
+        bool equiv        = false;
+        for (std::size_t i = 0; i + 1 < want.size(); ++i) { equiv = equiv || (want[i] != want[i + 1] && !MCmp{}(want[i], want[i + 1])); }
+        auto const cls    = cat(src.empty() ? "empty" : (sorted ? "sorted" : "unsorted"), dups ? "+duplicates" : "", equiv ? "+equivalent-keys" : "");
         kase              = cat(cfg, ": flat_multiset(container ", mc::show_seq(src), ")");
         auto const san0   = mc::san_hits();
         std::string subj  = subj_c;
@@ -1105,14 +1552,19 @@ void multiset_sweep(mc::Reporter& r, std::string const& cfg, int maxLen, std::si
                 MS const& cms = ms;
                 auto const got = read(cms);
                 r.outcome(mc::hash_str(mc::show_seq(got)));
-                if (got != want) { cx.fail("C09", subj, cls, cat("iteration: tetl=", mc::show_seq(got), " expected=", mc::show_seq(want))); }
+                if constexpr (!classes) {
+                    if (got != want) { cx.fail("C09", subj, cls, cat("iteration: tetl=", mc::show_seq(got), " expected=", mc::show_seq(want))); }
+                } else {
+                    auto gv = got;
+                    std::sort(gv.begin(), gv.end());
+                    if (gv != by_value) { cx.fail("C09", subj, cls, cat("not the elements of the container: tetl=", mc::show_seq(got), " container=", mc::show_seq(src))); }
+                }
                 if (read(ms) != got) { cx.fail("C09", "flat_multiset::begin/end", cls, "const and non-const iteration differ"); }
                 std::vector<int> viac;
                 for (auto it = cms.cbegin(); it != cms.cend(); ++it) { viac.push_back(value_of(*it)); }
                 if (viac != got) { cx.fail("C09", "flat_multiset::begin/end", cls, "cbegin..cend differs from begin..end"); }
-                Cmp const cmp{};
                 for (std::size_t i = 0; i + 1 < got.size(); ++i) {
-                    if (cmp(*(cms.begin() + (i + 1)), *(cms.begin() + i))) {
+                    if (MCmp{}(got[i + 1], got[i])) {
                         cx.fail("C09", "flat_multiset::<invariant>", "weakly-ascending", cat("not weakly ascending under the comparator: ", mc::show_seq(got)));
                         break;
                     }
@@ -1120,6 +1572,7 @@ void multiset_sweep(mc::Reporter& r, std::string const& cfg, int maxLen, std::si
                 cx.eq("C09", "flat_multiset::size", cls, "size()", std::size_t(cms.size()), src.size());
                 cx.eq("C09", "flat_multiset::empty", cls, "empty()", cms.empty(), src.empty());
                 cx.eq("C09", "flat_multiset::max_size", cls, "max_size()", std::size_t(cms.max_size()), cap);
+                cx.eq("C09", "flat_multiset::begin/end", cls, "end()-begin()", long(cms.end() - cms.begin()), long(src.size()));
                 if constexpr (WithReverse) {
                     std::vector<int> const rwant(got.rbegin(), got.rend());
                     std::vector<int> a, b, c;
@@ -1127,6 +1580,29 @@ void multiset_sweep(mc::Reporter& r, std::string const& cfg, int maxLen, std::si
                     for (auto it = cms.crbegin(); it != cms.crend(); ++it) { b.push_back(value_of(*it)); }
                     for (auto it = ms.rbegin(); it != ms.rend(); ++it) { c.push_back(value_of(*it)); }
                     if (a != rwant || b != rwant || c != rwant) { cx.fail("C09", "flat_multiset::rbegin/rend", cls, "reverse iteration is not the reverse of forward iteration"); }
+                }
+                // the implicit special members carry the sequence over unchanged (each only where the
+                // container provides it: static_vector over move-only elements has no move assignment,
+                // inplace_vector no copy assignment - API gaps)
+                {
+                    MS mv(std::move(ms));
+                    if (read(mv) != got) { cx.fail("C09", "flat_multiset::flat_multiset(&&)", cls, cat("move-constructed: ", mc::show_seq(read(mv)), " source was ", mc::show_seq(got))); }
+                    if constexpr (std::is_move_assignable_v<MS>) {
+                        MS as;
+                        as = std::move(mv);
+                        if (read(as) != got) { cx.fail("C09", "flat_multiset::operator=(&&)", cls, cat("move-assigned: ", mc::show_seq(read(as)), " source was ", mc::show_seq(got))); }
+                        mv = std::move(as);
+                        if (read(mv) != got) { cx.fail("C09", "flat_multiset::operator=(&&)", cls, cat("move-assigned back: ", mc::show_seq(read(mv)), " source was ", mc::show_seq(got))); }
+                    }
+                    if constexpr (std::conjunction_v<std::is_copy_constructible<T>, std::is_copy_constructible<MS>>) {
+                        MS cp(static_cast<MS const&>(mv));
+                        if (read(cp) != got || read(mv) != got) { cx.fail("C09", "flat_multiset::flat_multiset(const&)", cls, cat("copy: ", mc::show_seq(read(cp)), " source afterwards ", mc::show_seq(read(mv)))); }
+                    }
+                    if constexpr (std::conjunction_v<std::is_copy_constructible<T>, std::is_copy_assignable<MS>>) {
+                        MS cas(fill_container<C, T>(cap > 0 ? std::vector<int>{K} : std::vector<int>{}));
+                        cas = static_cast<MS const&>(mv);
+                        if (read(cas) != got || read(mv) != got) { cx.fail("C09", "flat_multiset::operator=(const&)", cls, cat("copy-assigned: ", mc::show_seq(read(cas)), " source afterwards ", mc::show_seq(read(mv)))); }
+                    }
                 }
             }
             drain_registry<T>(cx, subj);
@@ -1136,6 +1612,7 @@ void multiset_sweep(mc::Reporter& r, std::string const& cfg, int maxLen, std::si
                     MS ms(etl::sorted_equivalent, fill_container<C, T>(src));
                     auto const got = read(ms);
                     if (got != src) { cx.fail("C09", subj, cls, cat("iteration: tetl=", mc::show_seq(got), " expected=", mc::show_seq(src))); }
+                    cx.eq("C09", "flat_multiset::size", cls, "size() after sorted_equivalent construction", std::size_t(ms.size()), src.size());
                 }
                 drain_registry<T>(cx, subj);
                 r.count("evaluations");
@@ -1174,13 +1651,13 @@ void inplace_lookup_sweep(mc::Reporter& r, std::string const& cfg)
 {
     using C             = etl::inplace_vector<T, N>;
     using V             = etl::flat_set<T, C, Cmp>;
-    constexpr bool desc = CmpInfo<Cmp>::desc;
-    using M             = std::set<int, std::conditional_t<desc, std::greater<int>, std::less<int>>>;
+    using MCmp = typename CmpInfo<Cmp>::model;
+    using M    = std::set<int, MCmp>;
     std::string kase;
     Cx cx{r, [&] { return kase; }};
     for (unsigned mask = 0; mask < (1U << K); ++mask) {
-        if (popcount(mask) > int(N)) { continue; }
-        auto const keys = mask_keys(mask, K, desc);
+        if (popcount(mask) > int(N) || !mask_unique(mask, K, MCmp{})) { continue; }
+        auto const keys = mask_keys(mask, K, MCmp{});
         kase            = cat(cfg, ": flat_set(sorted_unique, container ", mc::show_seq(keys), ") => <observers>");
         M const m(keys.begin(), keys.end());
         auto const san0 = mc::san_hits();
@@ -1204,13 +1681,169 @@ void inplace_lookup_sweep(mc::Reporter& r, std::string const& cfg)
     r.count("configurations");
 }
 
+// =======================================================================================
+// relational operators (etl::equal / etl::lexicographical_compare underneath) and the observers on
+// sets whose storage holds STALE elements behind end(): every subset of the universe that fits is
+// built in every "stale mode" (what was in the storage before), then all ordered pairs are compared
+// =======================================================================================
+inline char const* stale_mode_name(int mode)
+{
+    switch (mode) {
+    case 0: return "fresh over 0xAA bytes";
+    case 1: return "filled with the largest keys, clear()";
+    case 2: return "filled with the smallest keys, erase(begin,end)";
+    case 3: return "fresh over 0x7F bytes";
+    case 4: return "filled with the largest keys, erase(begin) until empty";
+    default: return "filled with the smallest keys, erase(key) from the largest down";
+    }
+}
+
+template <bool Flat, std::size_t N, typename Cmp, int K>
+void stale_relational_sweep(mc::Reporter& r, std::string const& cfg, int modes)
+{
+    using C    = etl::static_vector<int, N>;
+    using V    = std::conditional_t<Flat, etl::flat_set<int, C, Cmp>, etl::static_set<int, N, Cmp>>;
+    using MCmp = typename CmpInfo<Cmp>::model;
+    using M    = std::set<int, MCmp>;
+    std::string const fam = Flat ? "flat_set" : "static_set";
+    struct Obj {
+        alignas(alignof(V) > 16 ? alignof(V) : 16) unsigned char buf[sizeof(V) + 32];
+        V* v{nullptr};
+        M m;
+        unsigned mask{0};
+        int mode{0};
+        Obj() = default;
+        Obj(Obj const&)            = delete;
+        Obj& operator=(Obj const&) = delete;
+        ~Obj()
+        {
+            if (v != nullptr) { v->~V(); }
+        }
+    };
+    std::string kase;
+    Cx cx{r, [&] { return kase; }};
+    auto const describe = [&](Obj const& o) { return cat(mc::show_seq(o.m), " [", stale_mode_name(o.mode), "]"); };
+    std::vector<std::unique_ptr<Obj>> objs;
+    for (int mode = 0; mode < modes; ++mode) {
+        for (unsigned mask = 0; mask < (1U << K); ++mask) {
+            if (popcount(mask) > int(N) || !mask_unique(mask, K, MCmp{})) { continue; }
+            auto o  = std::make_unique<Obj>();
+            o->mask = mask;
+            o->mode = mode;
+            std::memset(o->buf, mode == 3 ? 0x7F : 0xAA, sizeof o->buf);
+            bool ok = true;
+            kase    = cat(cfg, ": build ", mc::show_seq(mask_keys(mask, K, MCmp{})), " [", stale_mode_name(mode), "]");
+            mc::Trap t = mc::guarded([&] {
+                o->v = ::new (static_cast<void*>(o->buf)) V;
+                V& v = *o->v;
+                if (mode != 0 && mode != 3) {
+                    // fill to capacity: the N largest (modes 1, 4) or the N smallest (2, 5) pairwise inequivalent keys
+                    bool const largest = mode == 1 || mode == 4;
+                    M fill;
+                    for (int i = 0; i < K && fill.size() < N; ++i) { fill.insert(largest ? K - i : 1 + i); }
+                    for (int k : fill) { (void)v.insert(int(k)); }
+                    if (std::size_t(v.size()) != fill.size()) { ok = false; }
+                    if (mode == 1) {
+                        v.clear();
+                    } else if (mode == 2) {
+                        if constexpr (Flat) {
+                            (void)v.erase(v.cbegin(), v.cend());
+                        } else {
+                            (void)v.erase(v.begin(), v.end());
+                        }
+                    } else if (mode == 4) {
+                        while (!v.empty()) { (void)v.erase(v.begin()); }
+                    } else {
+                        for (auto it = fill.rbegin(); it != fill.rend(); ++it) { (void)v.erase(*it); }
+                    }
+                    if (!v.empty()) { ok = false; }
+                }
+                for (int k : mask_keys(mask, K, MCmp{})) {
+                    auto res = v.insert(int(k));
+                    ok       = ok && res.second;
+                    o->m.insert(k);
+                }
+                if (std::size_t(v.size()) != o->m.size()) { ok = false; }
+            });
+            if (t != mc::Trap::none) {
+                cx.fail(t == mc::Trap::assert_fired || t == mc::Trap::exception_raised ? "C05" : "C02", cat(fam, "::insert(&&)"),
+                    t == mc::Trap::assert_fired ? "handler-on-valid-call" : mc::trap_name(t), mc::describe_trap(t));
+                (void)o.release();
+                continue;
+            }
+            if (!ok) {
+                // (already a violation of the explored configurations; reported here with its own class)
+                cx.fail("C09", cat(fam, "::insert(&&)"), "refill-after-clear", "filling, emptying and refilling the set did not produce the expected sizes / inserted flags");
+                continue;
+            }
+            // observers on the refilled object
+            kase            = cat(cfg, ": ", describe(*o), " => <observers>");
+            auto const san0 = mc::san_hits();
+            mc::Trap to     = mc::guarded([&] { check_observers<int, K, Cmp, true>(cx, fam, *o->v, o->m, N); });
+            if (to != mc::Trap::none) {
+                cx.fail(to == mc::Trap::assert_fired || to == mc::Trap::exception_raised ? "C05" : "C02", cat(fam, "::<observers>"), cat("observer-", mc::trap_name(to)),
+                    mc::describe_trap(to));
+            } else if (mc::san_hits() != san0) {
+                cx.fail("C02", cat(fam, "::<observers>"), "sanitizer-report", "ASan/UBSan reported inside an observer");
+            }
+            r.count("evaluations", std::uint64_t(K + 2) * 8);
+            objs.push_back(std::move(o));
+        }
+    }
+    std::string const subj = fam + "::<relational operators>";
+    std::uint64_t pairs    = 0;
+    for (std::size_t i = 0; i < objs.size(); ++i) {
+        if ((i & 15) == 0 && r.deadline_passed()) {
+            r.not_exhaustive("deadline");
+            break;
+        }
+        Obj const& a = *objs[i];
+        std::vector<int> const sx(a.m.begin(), a.m.end());
+        auto const san0 = mc::san_hits();
+        std::size_t j   = 0;
+        mc::Trap t      = mc::guarded([&] {
+            for (j = 0; j < objs.size(); ++j) {
+                Obj const& b = *objs[j];
+                std::vector<int> const sy(b.m.begin(), b.m.end());
+                auto const common = std::min(sx.size(), sy.size());
+                bool const prefix = sx.size() != sy.size() && std::equal(sx.begin(), sx.begin() + long(common), sy.begin());
+                bool const stale  = (a.mode != 0 && a.mode != 3) || (b.mode != 0 && b.mode != 3);
+                auto const cls    = cat(sx == sy ? "equal" : (sx.size() == sy.size() ? "same-size" : (prefix ? "different-size+prefix" : "different-size")),
+                    stale ? "+stale-storage" : "");
+                kase              = cat(cfg, ": ", describe(a), " <=> ", describe(b));
+                V const& x        = *a.v;
+                V const& y        = *b.v;
+                // reference: std::set's operators = std::equal / std::lexicographical_compare with == and < of the keys
+                cx.eq("C09", subj, cls, "==", bool(x == y), a.m == b.m);
+                cx.eq("C09", subj, cls, "!=", bool(x != y), a.m != b.m);
+                cx.eq("C09", subj, cls, "<", bool(x < y), a.m < b.m);
+                cx.eq("C09", subj, cls, "<=", bool(x <= y), a.m <= b.m);
+                cx.eq("C09", subj, cls, ">", bool(x > y), a.m > b.m);
+                cx.eq("C09", subj, cls, ">=", bool(x >= y), a.m >= b.m);
+                ++pairs;
+                if (prefix) { r.count("distinct_nontrivial"); }
+            }
+        });
+        if (t != mc::Trap::none) {
+            cx.fail(t == mc::Trap::assert_fired || t == mc::Trap::exception_raised ? "C05" : "C02", subj, t == mc::Trap::assert_fired ? "handler-on-valid-call" : mc::trap_name(t),
+                mc::describe_trap(t));
+        } else if (mc::san_hits() != san0) {
+            cx.fail("C02", subj, "sanitizer-report", "ASan/UBSan reported inside a relational operator");
+        }
+        if (r.wants_sample() || (i % 499) == 0) { r.sample(kase); }
+    }
+    r.count("evaluations", pairs * 6);
+    r.outcome(mc::hash_str(cat(pairs)));
+    r.count("configurations");
+}
+
 // ---------------------------------------------------------------------------------------
 // job table helpers
 // ---------------------------------------------------------------------------------------
-template <bool Flat, typename T, std::size_t N, typename Cmp, int K, bool RawKey = false>
+template <bool Flat, typename T, std::size_t N, typename Cmp, int K, bool RawKey = false, int CK = sv>
 void add_set(mc::Main& m, std::vector<std::string> tiers, int seqLen, std::size_t maxPartners = 100000)
 {
-    using Sys = SetSys<Flat, T, N, Cmp, K, RawKey>;
+    using Sys = SetSys<Flat, T, N, Cmp, K, RawKey, CK>;
     m.job(cat(Sys{seqLen}.name(), "/k", K, "/len", seqLen, RawKey ? "/rawkey" : ""), tiers,
         [=](mc::Reporter& r) { explore<Sys>(r, seqLen, maxPartners); });
 }
@@ -1228,6 +1861,19 @@ void add_multiset_inplace(mc::Main& m, std::vector<std::string> tiers, int maxLe
     auto const cfg = cat("flat_multiset<", tname<T>(), ",inplace_vector<", N, ">,", CmpInfo<Cmp>::name(), ">");
     m.job(cat(cfg, "/k", K, "/len", maxLen), tiers,
         [=](mc::Reporter& r) { multiset_sweep<T, etl::inplace_vector<T, N>, Cmp, K, false>(r, cfg, maxLen, N); });
+}
+template <typename T, typename Cmp, int K>
+void add_multiset_heapvec(mc::Main& m, std::vector<std::string> tiers, int maxLen)
+{
+    auto const cfg = cat("flat_multiset<", tname<T>(), ",heap_vector,", CmpInfo<Cmp>::name(), ">");
+    m.job(cat(cfg, "/k", K, "/len", maxLen), tiers,
+        [=](mc::Reporter& r) { multiset_sweep<T, HeapVec<T>, Cmp, K, true>(r, cfg, maxLen, HeapVec<T>::limit); });
+}
+template <bool Flat, std::size_t N, typename Cmp, int K>
+void add_stale(mc::Main& m, std::vector<std::string> tiers, int modes)
+{
+    auto const cfg = Flat ? cat("flat_set<int,static_vector<", N, ">,", CmpInfo<Cmp>::name(), ">") : cat("static_set<int,", N, ",", CmpInfo<Cmp>::name(), ">");
+    m.job(cat(cfg, "/k", K, "/stale-relational/modes", modes), tiers, [=](mc::Reporter& r) { stale_relational_sweep<Flat, N, Cmp, K>(r, cfg, modes); });
 }
 template <typename T, std::size_t N, typename Cmp, int K>
 void add_inplace_lookup(mc::Main& m, std::vector<std::string> tiers)
@@ -1340,6 +1986,76 @@ int main(int argc, char** argv)
     add_multiset<TCM, 5, LTr, 5>(m, th, 5);
     add_multiset_inplace<int, 6, L, 6>(m, th, 6);
     add_inplace_lookup<int, 6, LT, 8>(m, th);
+#endif
+    // ---- round 2 ---------------------------------------------------------------------------
+    using LMo = etl::less<TMO>;
+    using LCo = etl::less<TCO>;
+    using GMo = etl::greater<TMO>;
+    using GCo = etl::greater<TCO>;
+#if !defined(MC_PART) || MC_PART == 15
+    // comparators with equivalence classes {0,1},{2,3},... and a comparator whose direction is run-time state
+    add_set<S, int, 3, HalfLess, 6>(m, both, 2);
+    add_set<F, int, 3, HalfLess, 6>(m, both, 2);
+    add_set<S, int, 3, HalfLessT, 6>(m, both, 2);
+    add_set<F, int, 3, HalfLessT, 6>(m, both, 2);
+    add_set<F, int, 3, DirCmp, 4>(m, both, 2);
+#endif
+#if !defined(MC_PART) || MC_PART == 16
+    // move-only / copy-only tracked keys; std::vector as an unbounded container; stale storage
+    add_set<S, TMO, 3, LMo, 4>(m, both, 2);
+    add_set<F, TMO, 3, LMo, 4>(m, both, 2);
+    add_set<S, TCO, 3, LCo, 4>(m, both, 2);
+    add_set<F, TCO, 3, LCo, 4>(m, both, 2);
+    add_set<F, int, 1000, LT, 5, false, heapvec>(m, both, 2);
+    add_stale<S, 4, L, 6>(m, both, 6);
+    add_stale<F, 4, L, 6>(m, both, 6);
+    add_multiset_heapvec<int, L, 5>(m, both, 5);
+    add_multiset<int, 4, HalfLess, 6>(m, both, 4);
+    add_multiset<TMO, 4, LMo, 4>(m, both, 4);
+    add_multiset<TCO, 4, LCo, 4>(m, both, 4);
+#endif
+#if !defined(MC_PART) || MC_PART == 17
+    // capacity boundaries of static_set beyond 5, key universe = capacity + 2
+    add_set<S, int, 6, L, 8>(m, th, 2, 300);
+    add_set<S, int, 7, G, 9>(m, th, 2, 300);
+    add_set<S, int, 8, LT, 10>(m, th, 2, 300);
+#endif
+#if !defined(MC_PART) || MC_PART == 18
+    add_set<F, int, 6, L, 8>(m, th, 2, 300);
+    add_set<F, int, 8, GT, 10>(m, th, 2, 200);
+#endif
+#if !defined(MC_PART) || MC_PART == 19
+    // fill / clear / refill histories keyed on the raw object bytes (stale storage is part of the state)
+    add_set<S, int, 4, L, 6, true>(m, th, 2, 300);
+    add_set<F, int, 4, L, 6, true>(m, th, 2, 300);
+#endif
+#if !defined(MC_PART) || MC_PART == 20
+    add_set<S, int, 4, HalfGreater, 8>(m, th, 3);
+    add_set<F, int, 4, HalfGreater, 8>(m, th, 3);
+    add_set<F, int, 4, DirCmp, 6>(m, th, 3);
+    add_set<S, TCM, 3, HalfLess, 6>(m, th, 2);
+    add_set<F, TCM, 3, HalfLess, 6>(m, th, 2);
+#endif
+#if !defined(MC_PART) || MC_PART == 21
+    add_set<S, TMO, 4, GMo, 6>(m, th, 3);
+    add_set<F, TMO, 4, GMo, 6>(m, th, 3);
+    add_set<S, TCO, 4, GCo, 6>(m, th, 3);
+    add_set<F, TCO, 4, GCo, 6>(m, th, 3);
+    add_set<F, int, 1000, L, 7, false, heapvec>(m, th, 3);
+    add_set<F, int, 1000, HalfLessT, 6, false, heapvec>(m, th, 2);
+#endif
+#if !defined(MC_PART) || MC_PART == 22
+    add_stale<S, 6, L, 8>(m, th, 6);
+    add_stale<F, 6, G, 8>(m, th, 6);
+    add_stale<S, 8, LT, 9>(m, th, 3);
+    add_stale<F, 4, HalfLess, 7>(m, th, 6);
+    add_multiset_heapvec<int, G, 6>(m, th, 6);
+    add_multiset<int, 6, HalfGreater, 6>(m, th, 6);
+    add_multiset<TMO, 5, GMo, 5>(m, th, 5);
+    add_multiset<TCO, 5, GCo, 5>(m, th, 5);
+    add_multiset<TCM, 4, HalfLess, 5>(m, th, 4);
+    add_multiset_inplace<int, 5, HalfLess, 6>(m, th, 5);
+    add_inplace_lookup<int, 4, HalfLessT, 7>(m, th);
 #endif
     return m.run();
 }
